@@ -9,20 +9,22 @@ import CoCoVerif.Model.Program
 namespace CoCo.Asm
 open CoCo
 
-/-- the constant the "other" operand of a label expression contributes -/
-def addrOther (ss : List Stmt) (other : Value) : Outcome Nat :=
+/-- the constant the "other" operand of a label expression contributes (signed since repair batch B2:
+a number written or defined with a minus sign counts negatively) -/
+def addrOther (ss : List Stmt) (other : Value) : Outcome Int :=
   if other.isAddress then
     (match other.int? with
-     | some j => (match addrIntOf ss j with | some x => .ok x | none => .internal)
+     | some j => (match addrIntOf ss j with | some x => .ok (x : Int) | none => .internal)
      | none => .internal)
-  else if other.isNumeric then (match other.int? with | some n => .ok n | none => .internal)
+  else if other.isNumeric then (match other.int? with
+                                | some n => .ok (if other.isNegative then -(n : Int) else n) | none => .internal)
   else .diag
 
 /-- the arithmetic of `calculate_address_offset` on the label's address `a` and the constant `add` -/
-def addrCombine (op : Char) (a add : Nat) : Outcome Value :=
+def addrCombine (op : Char) (a : Nat) (add : Int) : Outcome Value :=
   let z : Option Int :=
     if op == '+' then some ((a : Int) + add) else if op == '-' then some (((a : Int) - add) % 65536)
-    else if op == '*' then some ((a : Int) * add) else (if add = 0 then none else some ((a / add : Nat) : Int))
+    else if op == '*' then some ((a : Int) * add) else (if add = 0 then none else some (Int.tdiv (a : Int) add))
   match z with
   | none => .diag
   | some z => (match numericOfInt z (some 4) .extended with | .ok nv => .ok nv | .error _ => .diag)
@@ -41,7 +43,7 @@ theorem addrOffset_nonexpr (ss : List Stmt) (v : Value) (h : ∀ l r op m ae, v 
     addrOffset ss v = .internal := by
   cases v <;> first | rfl | exact absurd rfl (h _ _ _ _ _)
 
-theorem addrCombine_cases (op : Char) (a add : Nat) :
+theorem addrCombine_cases (op : Char) (a : Nat) (add : Int) :
     addrCombine op a add = .diag ∨ ∃ v, addrCombine op a add = .ok v := by
   unfold addrCombine
   generalize (if (op == '+') = true then _ else _ : Option Int) = z
@@ -49,10 +51,10 @@ theorem addrCombine_cases (op : Char) (a add : Nat) :
   | none => left; rfl
   | some z => dsimp only; cases numericOfInt z (some 4) .extended <;> simp
 
-theorem addrCombine_ne_internal (op : Char) (a add : Nat) : addrCombine op a add ≠ .internal := by
+theorem addrCombine_ne_internal (op : Char) (a : Nat) (add : Int) : addrCombine op a add ≠ .internal := by
   rcases addrCombine_cases op a add with h | ⟨v, h⟩ <;> rw [h] <;> simp
 
-theorem addrCombine_ne_diverged (op : Char) (a add : Nat) : addrCombine op a add ≠ .diverged := by
+theorem addrCombine_ne_diverged (op : Char) (a : Nat) (add : Int) : addrCombine op a add ≠ .diverged := by
   rcases addrCombine_cases op a add with h | ⟨v, h⟩ <;> rw [h] <;> simp
 
 theorem addrOther_ne_diverged (ss : List Stmt) (v : Value) : addrOther ss v ≠ .diverged := by
@@ -69,10 +71,14 @@ theorem addrOther_diag_iff (ss ss' : List Stmt) (v : Value) :
 
 /-- the other operand in closed form -/
 theorem addrOther_address (ss : List Stmt) (j : Nat) (m : Mode) :
-    addrOther ss (.address j m) = (match addrIntOf ss j with | some x => .ok x | none => .internal) := rfl
+    addrOther ss (.address j m) = (match addrIntOf ss j with | some x => .ok (x : Int) | none => .internal) := rfl
 
 theorem addrOther_numeric (ss : List Stmt) (k : Nat) (h : Option Nat) (m : Mode) (n : Bool) :
-    addrOther ss (.numeric k h m n) = .ok k := rfl
+    addrOther ss (.numeric k h m n) = .ok (if n then -(k : Int) else k) := rfl
+
+/-- a number without a sign contributes itself -/
+theorem addrOther_numeric_pos (ss : List Stmt) (k : Nat) (h : Option Nat) (m : Mode) :
+    addrOther ss (.numeric k h m false) = .ok (k : Int) := rfl
 
 theorem addrOther_other (ss : List Stmt) (v : Value) (ha : v.isAddress = false) (hn : v.isNumeric = false) :
     addrOther ss v = .diag := by
